@@ -229,6 +229,8 @@ Step ==
                      vouch == e.type \in {"PrepareResponse", "Commit"} /\ Has(LR, e.n) /\ d.h = e.h /\ d.view = e.view
                               /\ ND[e.n].id # d.from /\ ND[e.n].obs     \* (obs: every source of transactions of this node is a fake peer)
                  IN Report(l, NameIf(~vouch \/ ResponseJustified(d.txs, ST[e.n].pever \cup R.pb, Good(e.n)), "ProposalTxs:accepted-unverified")
+                              \* signing for block e.h means standing at e.h - 1: not while every connected peer is ahead of that
+                              \cup NameIf(~(ND[e.n].obs /\ ND[e.n].minp > 0 /\ FarBehind(e.h - 1, {CN[<<e.n, p>>].adv : p \in Open(e.n)})), "ServiceStart:signed-behind")
                               \cup NameIf(~(e.type = "PrepareRequest" /\ e.view = 0) \/ ST[e.n].pool \subseteq ToSet(e.txs), "ProposalTxs:pending-left-out")
                               \cup NameIf(Own(e.n, e.type, e.h, e.view) = {} \/ e.type \in {"RecoveryMessage", "RecoveryRequest", "ChangeView"}, "i:OwnRepeated"),
                            [ev |-> e, proposal |-> R.x, named |-> d.txs, pool |-> ST[e.n].pool])
@@ -258,7 +260,9 @@ Step ==
               /\ Unch(<<ep, nv, ND, ST, XD, SN, DC, IV, CN, DIRTY, OF, RQ, AK, OW, QB, AB, BI, TO, FQ, GX, RX, GB, LR, PG>>)
          [] e.event = "svcstart" ->
               /\ ST' = [ST EXCEPT ![e.n].started = TRUE, ![e.n].se = ep]
-              /\ Report(l, NameIf(~(ND[e.n].minp > 0 /\ FarBehind(e.h, {CN[<<e.n, p>>].adv : p \in Ever(e.n)})), "ServiceStart:started-behind"),
+              /\ Report(l, NameIf(~(ND[e.n].minp > 0 /\ FarBehind(e.h, {CN[<<e.n, p>>].adv : p \in Ever(e.n)})), "ServiceStart:started-behind")
+                           \* (the handshakes the server has seen are among the logged ones: fewer logged than MinPeers = started too early)
+                           \cup NameIf(~ND[e.n].obs \/ Cardinality(Ever(e.n)) >= ND[e.n].minp, "ServiceStart:started-without-peers"),
                         [ev |-> e, peers |-> {CN[<<e.n, p>>].adv : p \in Ever(e.n)}])
               /\ Unch(AllBut_ST)
          [] e.event = "timeout" ->
